@@ -34,7 +34,7 @@ from harness import lib
 from harness.lib import RunResult, Violation, cq_bool
 
 PID = "C09"
-COQ_TARGETS = ["props/C09.vo"]
+COQ_TARGETS = ["props/C09.vo", "model/EngineInv.vo"]   # EngineInv: needed by the extracted oracle (engine part)
 THEOREMS = [
     "Stab.props.C09.bloom_no_false_negative",
     "Stab.props.C09.bloom_bits_monotone",
@@ -840,6 +840,27 @@ def run(ctx) -> RunResult:
         res.notes.append("something no longer checks and no new failing input was seen: running the extended search")
         res.violations += search(ctx, list(ctx.broken))
     res.extra = {"model_steps_compared": sum(len(c["ops"]) for c, _, _ in impl["bloom"]) + sum(len(c["hist"]) for c, _, _ in impl["dedup"])}
+    # ---- the same property on the REAL handlers: every handler commit that consumes a message carries that message's
+    # processed record (commit-level correspondence with model/Engine.v, whose handlers mark in the commit that writes),
+    # under redelivery without ack, cancels, pauses and a crash cut after every commit of ResumeStage
+    try:
+        from harness import engine_corr
+        outs = engine_corr.extend(ctx, res, PID)
+        for o in outs:
+            done_ok = set()
+            for a, r in zip(o["actions"], o["results"]):
+                if a[0] in ("D", "X") and r.get("polled") and r.get("handler_commits", 0) >= 1 and not r.get("crashed") \
+                        and not r.get("exception"):
+                    if a[1] in done_ok:
+                        res.violations.append(Violation(
+                            what=f"queue row {a[1]} ({r.get('polled')}) was handled again although an earlier handling of it had committed",
+                            signature="handled-twice:" + str(r.get("polled")),
+                            replay={"kind": "engine", "spec": o["case"]["spec"], "actions": o["actions"],
+                                    "case": {k: v for k, v in o["case"].items() if k not in ("spec", "actions")}}))
+                        break
+                    done_ok.add(a[1])
+    except ImportError as e:
+        res.notes.append(f"engine part not available: {e!r}")
     return res
 
 
@@ -866,6 +887,9 @@ def search(ctx, broken) -> list:
 
 def replay(obj) -> bool:
     """True = the property holds on this replay."""
+    if (obj.get("replay") or {}).get("kind") == "engine":
+        from harness import engine_corr
+        return engine_corr.replay(obj)
     lib.ensure_repo_on_path()
     case = obj["replay"]
     case = {k: v for k, v in case.items() if k not in ("fail", "how")}
